@@ -74,6 +74,22 @@ def gen_cases(ctx):
                 cases.append(Case("RS_%s_p%d_%g" % (ind, p, lvl), [new_op(0, ind, pr)] + pre + [("r", 0)] + fl, dump=(),
                                   meta={"ind": ind, "p": p, "npre": len(pre), "flen": flen, "lvl": lvl, "bars": bars, "vol": 5.0,
                                         "stretches": [(len(pre) + 1, flen, lvl)], "reset": True}))
+    # seed-independent long runs (code that only executes every 2^10 / 2^12 updates, or assumes a full window when it does):
+    # 4200 active inputs then flat; a fresh flat stream of 1100 inputs under a period of 1500; 1010 active inputs, reset(), flat
+    for ind in ALL:
+        if nper(ind) == 0:
+            continue
+        bars = ind in NO_SCALAR
+        k = nper(ind)
+        for fam, p, npre, flen, rs in (("la", 5, 4200, 17, False), ("bp", 1500, 0, 1100, False), ("lr", 20, 1010, 40, True)):
+            pr = (p, 3 if k >= 2 else 0, 2 if k >= 3 else 0, 2.0 if ind in HAS_MULT else 0.0)
+            pre = long_feed(ind, npre)
+            lvl = 42.0
+            fl = [("b", 0, lvl, lvl, lvl, lvl, 5.0)] * flen if bars else [("n", 0, lvl)] * flen
+            mid = [("r", 0)] if rs else []
+            cases.append(Case("LONG_%s_%s" % (fam, ind), [new_op(0, ind, pr)] + pre + mid + fl, dump=(),
+                              meta={"ind": ind, "p": p, "npre": npre, "flen": flen, "lvl": lvl, "bars": bars, "vol": 5.0,
+                                    "stretches": [(npre + len(mid), flen, lvl)], "reset": rs}))
     # flat stretches long enough for the exponential averages to underflow (the 0.1 seeds of RSI reach the subnormals after
     # ~700 (n=2) ... ~5000 (n=14) equal inputs): from fresh and after activity
     for ind in ("RSI", "EMA", "SLOW", "MACD", "PPO", "ATR", "KC"):
@@ -120,6 +136,11 @@ def check_impl(ctx, cases):
             npre = sstart
             t = npre + j + 1
             degenerate = (j + 1 >= (need or 1))
+            # a stretch that starts the instance's life (fresh, or right after a reset): every input so far is the level, so the
+            # window is flat from the start, whatever the period
+            life_start = (sstart == 0) or (sstart >= 1 and c.ops[sstart][0] == "r")
+            if life_start and need is not None and j + 1 >= (2 if ind in NEED1 else 1):
+                degenerate = True
             if not degenerate:
                 continue
             v = f_of(c.obs[t])
